@@ -115,6 +115,18 @@ impl ShlSpecImpl<usize> for UBig {
     open spec fn shl_req(self, rhs: usize) -> bool { true }
     open spec fn shl_spec(self, rhs: usize) -> UBig { ubig_of(self.v() * ipow(2, rhs as nat)) }
 }
+// (not used by the unchanged code: present so that a changed function that shifts right still type-checks and is
+//  judged by its contract instead of being rejected as unsupported)
+impl Shr<usize> for UBig {
+    type Output = UBig;
+    #[verifier::external_body]
+    fn shr(self, rhs: usize) -> UBig { unimplemented!() }
+}
+impl ShrSpecImpl<usize> for UBig {
+    open spec fn obeys_shr_spec() -> bool { true }
+    open spec fn shr_req(self, rhs: usize) -> bool { true }
+    open spec fn shr_spec(self, rhs: usize) -> UBig { ubig_of(self.v() / ipow(2, rhs as nat)) }
+}
 impl Neg for UBig {
     type Output = IBig;
     #[verifier::external_body]
